@@ -61,8 +61,9 @@ func genResolverSrc() {
 	}
 	// gotypes.ResolveIdent, goast.ResolveIdent and resolvePath are no longer pinned by hash: they are
 	// translated (decision.go -> Gen/DecisionSrc.v) and proved to compute the models
+	// goast.imports: its case for one import spec is translated and proved (goastimports.go), the frame
+	// around that case pinned there
 	want := map[string]string{
-		"goast.imports":         "GOAST_IMPORTS",
 		"decorator.stripVendor": "DEC_STRIPVENDOR",
 	}
 	var keys []string
